@@ -100,10 +100,19 @@ class Env:
     self.histories = []       # (thread label, [sequence ids in append order per key])
 
 
+class _Ids(list):
+  """Per-key lists of sequence ids; `.locs` = where each entry says it was made."""
+  locs = ()
+
+
 def collect_ids(cfg):
-  out = []
-  for lst in cfg.__argument_history__.values():
+  out = _Ids()
+  locs = []
+  for key, lst in cfg.__argument_history__.items():
     out.append([e.sequence_id for e in lst])
+    locs.append((str(key), [(getattr(e.location, 'function_name', None), getattr(e.location, 'line_number', None))
+                            for e in lst]))
+  out.locs = locs
   return out
 
 
@@ -304,6 +313,7 @@ _SOLO = {}
 
 
 _SOLO_LINES = {}
+_SOLO_LOCS = {}
 
 
 def solo(name, idx):
@@ -316,6 +326,7 @@ def solo(name, idx):
     r0.trace = []
     run = r0.go()
     _SOLO[key] = (run.results[0], run.points[0])
+    _SOLO_LOCS[key] = [getattr(lists, 'locs', None) for _, lists in env.histories]
     # the first yield point at which each distinct source line is reached
     first = {}
     for i, (_, f, ln) in enumerate(run.trace, 1):
@@ -360,6 +371,21 @@ def judge(names, run, env, acc, schedule_desc):
                     f'{safe_repr(exp, 200)}',
                     {'programs': names, 'schedule': schedule_desc,
                      'switches': [list(x) for x in run.switches][:40]})
+  # every history entry names the source line of the edit that made it - the same line as in the
+  # run of that program alone
+  for i, name in enumerate(names):
+    solo(name, i)
+    mine = [getattr(lists, 'locs', None) for label, lists in env.histories if label == f'T{i}']
+    if run.results[i][0] == 'ok' and mine != _SOLO_LOCS.get((name, i)):
+      other = [n for j, n in enumerate(names) if j != i]
+      acc.violation(f'history-locations-differ-from-solo:{name}:with-{"+".join(other)}',
+                    f'{name} (thread {i}): {safe_repr(mine, 300)}; alone: '
+                    f'{safe_repr(_SOLO_LOCS.get((name, i)), 300)}',
+                    {'programs': names, 'schedule': schedule_desc,
+                     'switches': [list(x) for x in run.switches][:40]})
+      break
+  else:
+    acc.obs('history_locations_compared_with_solo')
   # history ids: unique across threads, increasing within each list
   all_ids = []
   for label, lists in env.histories:
